@@ -14,7 +14,7 @@ const cpTemplates = "pkg/collector.CollectingProcess.templatesMap"
 func init() {
 	register(&propDef{
 		ID:          "C04",
-		Explanation: "Ownership, key-flow and path rules for the collector's template store, decided on SSA: (1) R-OWNER: templatesMap is touched only by the add / delete / lookup functions and the constructor; (2) R-KEY: in each of them every outer-map operation is keyed by the function's uint32 parameter and every inner-map operation by its uint16 parameter (never a constant, never one key only); at the call sites the arguments originate - through parameters and closure captures - from the header's observation-domain wire variable (5th decoded header field) and from the set id (data) / template-record id (template) wire variables of the same message, and decodePacket selects the template decoder exactly for set id == TemplateSetID; (3) R-GATE: in the template decoder every error return after the template id has been decoded passes deleteTemplate(obsDomainID, templateID) (two infeasible builder errors are named exceptions), every success return passes addTemplate with the same keys; addTemplate stores the new field list on ALL paths (replacement is unconditional) and the list is built from the incoming elements; the data decoder returns an error before touching the buffer when the lookup fails, and the lookup returns the stored list only on the found edge; (4) the lockset rules of C12 for templatesMap and the template fields. This decides the per-message transition of the store; whole histories are not enumerated. Later additions: the builder-error exemption is re-derived from the builders' code on every run; decoding reads no per-process state other than the configuration and the store entry of its own key; Buffer.Read counts are checked; the stored field list is a new slice.",
+		Explanation: "Ownership, key-flow and path rules for the collector's template store, decided on SSA: (1) R-OWNER: templatesMap is touched only by the add / delete / lookup functions and the constructor; (2) R-KEY: in each of them every outer-map operation is keyed by the function's uint32 parameter and every inner-map operation by its uint16 parameter (never a constant, never one key only); at the call sites the arguments originate - through parameters and closure captures - from the header's observation-domain wire variable (5th decoded header field) and from the set id (data) / template-record id (template) wire variables of the same message, and decodePacket selects the template decoder exactly for set id == TemplateSetID; (3) R-GATE: in the template decoder every error return after the template id has been decoded passes deleteTemplate(obsDomainID, templateID) (two infeasible builder errors are named exceptions), every success return passes addTemplate with the same keys; addTemplate stores the new field list on ALL paths (replacement is unconditional) and the list is built from the incoming elements; the data decoder returns an error before touching the buffer when the lookup fails, and the lookup returns the stored list only on the found edge; (4) the lockset rules of C12 for templatesMap and the template fields. This decides the per-message transition of the store; whole histories are not enumerated. Later additions: the builder-error exemption is re-derived from the builders' code on every run; decoding reads no per-process state other than the configuration and the store entry of its own key; Buffer.Read counts are checked; the stored field list is a new slice. Round-five additions: the per-domain map is removed only under len(inner map) == 0 (C10's prune rule).",
 		Assume:      []string{"Go map semantics", "PrepareSet(Template, id) and AddRecordV2 on a freshly prepared decoding set cannot fail (constant set type)"},
 		Run:         runC04,
 	})
